@@ -95,6 +95,32 @@ func LoadEngine(repo string, stdlibDir string) (*Engine, error) {
 		}
 		e.funcs[k] = fn
 	}
+	// methods of package-level types (AllFunctions may omit methods it considers unreachable)
+	for _, sp := range spkgs {
+		if sp == nil {
+			continue
+		}
+		for _, m := range sp.Members {
+			t, ok := m.(*ssa.Type)
+			if !ok {
+				continue
+			}
+			for _, typ := range []types.Type{t.Type(), types.NewPointer(t.Type())} {
+				ms := prog.MethodSets.MethodSet(typ)
+				for i := 0; i < ms.Len(); i++ {
+					fn := prog.MethodValue(ms.At(i))
+					if fn == nil || fn.Synthetic != "" {
+						continue
+					}
+					if k := funcKey(fn); k != "" {
+						if _, ok := e.funcs[k]; !ok {
+							e.funcs[k] = fn
+						}
+					}
+				}
+			}
+		}
+	}
 	e.tid(nil) // reserve 0
 	return e, nil
 }
